@@ -80,7 +80,9 @@ def prevCand (mods : List Module) (i address : Nat) : Option (Nat × Module) :=
 /-- The module `find_module_for_address` settles on, before the base address checks. -/
 def findCand (mods : List Module) (address : Nat) : Option (Nat × Module) :=
   match mods[lowerBound address mods]? with
-  | some m => if m.start = address then some (lowerBound address mods, m)
+  | some m => if m.start = address then
+                -- (since 2a4e12e the end check applies here too: an empty range contains nothing)
+                (if m.stop ≤ address then none else some (lowerBound address mods, m))
               else prevCand mods (lowerBound address mods) address
   | none => prevCand mods (lowerBound address mods) address
 
